@@ -154,6 +154,10 @@ func (broker *TriggerBroker) AddConnection(source, receiver int) error {
 		return fmt.Errorf("could not add channel %d as a group receiver (nchannels=%d)",
 			receiver, broker.nchannels)
 	}
+	if source < 0 || source >= broker.nchannels {
+		return fmt.Errorf("could not add channel %d as a group source (nchannels=%d)",
+			source, broker.nchannels)
+	}
 	if !broker.sources[receiver][source] {
 		broker.nconnections++
 	}
